@@ -93,7 +93,9 @@ def run(v, O):
     if v.nodim:
         out += [('q+c', O.eq(base(O, A + v.c), v.a * f + v.c, 1e-9)), ('c+q', O.eq(base(O, v.c + A), v.a * f + v.c, 1e-9)),
                 ('q-c', O.eq(base(O, A - v.c), v.a * f - v.c, 1e-9)), ('c-q', O.eq(base(O, v.c - A), v.c - v.a * f, 1e-9)),
-                ('q+c carries left units', O.same((A + v.c).units(), A.units()))]
+                ('q+c carries left units', O.same((A + v.c).units(), A.units())),
+                ('c+q carries no units (the left operand is a plain number)', O.same((v.c + A).units(), None)), ('c-q carries no units', O.same((v.c - A).units(), None)),
+                ('c+q value', O.eq((v.c + A).value(), v.c + v.a * f, 1e-9)), ('c-q value', O.eq((v.c - A).value(), v.c - v.a * f, 1e-9)), ('q+c value in q units', O.eq((A + v.c).value() * f, v.a * f + v.c, 1e-9))]
     else:
         out += [('q+c refused', O.raises(lambda: A + v.c)), ('c+q refused', O.raises(lambda: v.c + A)),
                 ('q-c refused', O.raises(lambda: A - v.c)), ('c-q refused', O.raises(lambda: v.c - A))]
